@@ -13,6 +13,8 @@ package c14
 import (
 	"fmt"
 	"math/big"
+	"os"
+	"strings"
 	"testing"
 	"time"
 
@@ -169,6 +171,24 @@ func x25519PrimeGroup() *group[*curve25519.PrimeSubGroupPoint, *curve25519.Scala
 
 // ---------------------------------------------------------------------------------------------------------------
 
+// explore is engine.Explore restricted, for development and for the mutant demonstrations, to the sections whose name
+// contains one of the comma-separated substrings in VERIF_C14_SECTIONS (unset = all sections; the registered commands
+// never set it).
+func explore(body func(*engine.X), o engine.Opts) {
+	if f := os.Getenv("VERIF_C14_SECTIONS"); f != "" {
+		hit := false
+		for _, s := range strings.Split(f, ",") {
+			if s != "" && strings.Contains(o.Name, s) {
+				hit = true
+			}
+		}
+		if !hit {
+			return
+		}
+	}
+	engine.Explore(body, o)
+}
+
 func budget(q, t int) time.Duration {
 	return engine.Budget(time.Duration(q)*time.Second, time.Duration(t)*time.Second)
 }
@@ -177,13 +197,14 @@ func budget(q, t int) time.Duration {
 //
 //	sweep   point names on which the 64x16 window sweep runs (nil = every alphabet point)
 //	dense   all scalars 0..4095 on G and H
-//	msmLen  maximal length of the exhaustive small-MSM enumeration
-func runGroup[P libPoint[P, S], S curve.Byteser, R any](g *group[P, S, R], sweep map[string]bool, dense bool, msmLen int, long []int) {
-	engine.Explore(lawsBody(g), engine.Opts{Name: "laws/" + g.name, Budget: budget(120, 900)})
-	engine.Explore(scalarBody(g, sweep, dense), engine.Opts{Name: "scalarmul/" + g.name, Budget: budget(120, 1200)})
+//	msmFull maximal length of the exhaustive small-MSM enumeration over the full reduced alphabets (20 pairs)
+//	msmRed  maximal length over the smaller alphabets (9 pairs)
+func runGroup[P libPoint[P, S], S curve.Byteser, R any](g *group[P, S, R], sweep map[string]bool, dense bool, msmFull, msmRed int, long []int) {
+	explore(lawsBody(g), engine.Opts{Name: "laws/" + g.name, Budget: budget(120, 900)})
+	explore(scalarBody(g, sweep, dense), engine.Opts{Name: "scalarmul/" + g.name, Budget: budget(120, 1200)})
 	if g.msm != nil {
-		engine.Explore(msmSmallBody(g, msmLen), engine.Opts{Name: "msm/" + g.name, Budget: budget(120, 1500)})
-		engine.Explore(msmLongBody(g, long), engine.Opts{Name: "msmlong/" + g.name, Budget: budget(120, 900)})
+		explore(msmSmallBody(g, msmFull, msmRed), engine.Opts{Name: "msm/" + g.name, Budget: budget(120, 1500)})
+		explore(msmLongBody(g, long), engine.Opts{Name: "msmlong/" + g.name, Budget: budget(120, 900)})
 	}
 }
 
@@ -202,31 +223,40 @@ func TestCheck(t *testing.T) {
 	if !thorough {
 		sweep = quickSweep
 	}
-	longQuick := []int{7, 8, 15, 16, 33, 64, 65}
+	longQuick := []int{7, 8, 16, 33, 65}
 	longAll := []int{5, 6, 7, 8, 9, 15, 16, 17, 31, 32, 33, 63, 64, 65, 127, 128, 129}
-	long := longQuick
+	long, longG2 := longQuick, []int{7, 8, 33}
 	if thorough {
-		long = longAll
+		long, longG2 = longAll, []int{7, 8, 9, 16, 33, 65}
 	}
-	small := func(quick int) int { // exhaustive MSM length: quick value, 4 in thorough
+	// exhaustive small MSM: (max length over 20 pairs, max length over 9 pairs)
+	pick := func(q1, q2, t1, t2 int) (int, int) {
 		if thorough {
-			return 4
+			return t1, t2
 		}
-		return quick
+		return q1, q2
 	}
+	f, r := pick(3, 4, 4, 4)
+	runGroup(k256Group(), sweep, true, f, r, long)
+	f, r = pick(3, 3, 4, 4)
+	runGroup(p256Group(), sweep, thorough, f, r, long)
+	f, r = pick(2, 3, 3, 4)
+	runGroup(pallasGroup(), sweep, thorough, f, r, long)
+	f, r = pick(2, 2, 3, 4)
+	runGroup(vestaGroup(), sweep, thorough, f, r, long)
+	f, r = pick(3, 3, 4, 4)
+	runGroup(ed25519Group(), sweep, thorough, f, r, long)
+	f, r = pick(2, 2, 3, 4)
+	runGroup(ed25519PrimeGroup(), sweep, thorough, f, r, long)
+	runGroup(x25519Group(), sweep, thorough, 0, 0, nil)
+	runGroup(x25519PrimeGroup(), sweep, false, 0, 0, nil)
+	f, r = pick(2, 3, 3, 4)
+	runGroup(g1Group(), sweep, thorough, f, r, long)
+	f, r = pick(2, 2, 2, 3)
+	runGroup(g2Group(), sweep, false, f, r, longG2)
 
-	runGroup(k256Group(), sweep, true, 4, long)
-	runGroup(p256Group(), sweep, thorough, small(3), long)
-	runGroup(pallasGroup(), sweep, thorough, small(3), long)
-	runGroup(vestaGroup(), sweep, thorough, small(2), long)
-	runGroup(ed25519Group(), sweep, thorough, small(3), long)
-	runGroup(ed25519PrimeGroup(), sweep, thorough, small(2), long)
-	runGroup(x25519Group(), sweep, thorough, 0, nil)
-	runGroup(x25519PrimeGroup(), sweep, false, 0, nil)
-	runGroup(g1Group(), sweep, thorough, small(3), long)
-	runGroup(g2Group(), sweep, false, small(2), long)
-
-	engine.Explore(genericBody(), engine.Opts{Name: "algebrautils/k256", Budget: budget(60, 600)})
+	explore(genericBody(), engine.Opts{Name: "algebrautils/k256", Budget: budget(60, 600)})
+	runElliptic()
 	runFields()
 	runPairing()
 }
